@@ -1,8 +1,8 @@
 """C23 — generators and coroutines follow CPython's protocol on every history.
 
 spec/Generator.tla: the protocol as an interpreter with an input stream (PEP 342/380/479/492).
-TLC explores (body template, history) states: 31 templates (28 generator bodies incl. delegation
-to compiled and plain-Python inner generators, 3 `async def` coroutines over a hand-written
+TLC explores (body template, history) states: 35 templates (32 generator bodies incl. delegation
+to compiled and plain-Python inner generators and to plain iterators without send/throw/close, 3 `async def` coroutines over a hand-written
 awaitable) x every history over {next, send None, send 7, throw ValueError/KeyError/GeneratorExit,
 close} up to the bound; every state carries the expected answers and the body's log after the
 history and after an additional `del` (finaliser).  Invariants: one answer per operation, finally
@@ -29,7 +29,9 @@ THOROUGH = [("Generator_t1", "MaxLen=5, templates 1-8"), ("Generator_t2", "MaxLe
             ("Generator_t3", "MaxLen=5, templates 17-24"), ("Generator_t4", "MaxLen=5, templates 25-31"),
             ("Generator_t5", "MaxLen=6, templates 4 (ignore_ge), 9 (yf_c)"),
             ("Generator_t6", "MaxLen=6, templates 12 (yf_ignore_c), 26 (yf_drop_c)"),
-            ("Generator_t7", "MaxLen=6, templates 11 (nested_fin), 30 (co_tryfin)")]
+            ("Generator_t7", "MaxLen=6, templates 11 (nested_fin), 30 (co_tryfin)"),
+            ("Generator_t8", "MaxLen=5, templates 32-35 (yield from plain iterators)"),
+            ("Generator_t9", "MaxLen=6, templates 32 (yi_list), 35 (yf_yi)")]
 
 
 def classify(case, coro, want, got):
